@@ -27,7 +27,8 @@ EXPLANATION = (
     'is filled and probed with the same kind of key (app object vs app label '
     'vs node key); R-C09.8 the applied evolutions / migrations that prune '
     'the graph are read from the database being evolved; '
-    'R-C09.9 app-level before-requirements attach to the app\'s __last__ anchor and after-requirements to its __first__ anchor (reaching definitions of the node argument in EvolutionGraph.add_evolutions).')
+    'R-C09.9 app-level before-requirements attach to the app\'s __last__ anchor and after-requirements to its __first__ anchor (reaching definitions of the node argument in EvolutionGraph.add_evolutions); '
+    'R-C09.1 sequence chaining is decided by data flow (the freshly created unit depends on the carried-over one); R-C09.10 mutation-generated requirements are merged per key into the declared ones, never assigned over them.')
 NOT_DECIDED = (
     'Correctness of the topological sort on all graphs, and the behaviour '
     'of Django\'s own migration planner.')
